@@ -234,6 +234,7 @@ type FNode struct {
 	FS   []int32
 	FS2  []string
 	FT   time.Time
+	FPT  *time.Time
 	FStr string
 	FBin []byte
 	FP   *Inner
@@ -283,7 +284,7 @@ var StructTypes = []reflect.Type{
 	T(CN1{}), T(CN2{}), T(NMapHolder{}),
 	T(ManyF{}), T(ManyL{}),
 	T(Node{}), T(FNode{}), T(Ping{}), T(Pong{}), T(ENode{}), T(DeepNil{}),
-	T(MapAndLists{}), T(Wrap{}), T(WrapList{}),
+	T(MapAndLists{}), T(Wrap{}), T(WrapList{}), T(PtrTime{}),
 }
 
 // TypeByName finds a zoo struct type.
